@@ -28,6 +28,7 @@ def run(ck):
         "feature. These are all paths of the named functions, i.e. every history; no execution is involved.")
     ck.assumptions += ["collectors' own register_callsite/max_level_hint are self-consistent (assumed by the property)",
                        "thread interleavings of registration are covered structurally under C04 only"]
+    ck.rule("C01.R12", "`level <= max level` means what it says: the Level/LevelFilter encoding, comparison operators and set_max/current (as C19.R1/R2/R4)", floor=60)
     ck.rule("C01.R1", "macro guard == static ∧ max ∧ interest≠never ∧ is_enabled, nothing else, before every delivery", floor=300)
     ck.rule("C01.R1c", "every terminal macro arm is exercised by a fixture function", floor=9)
     ck.rule("C01.R2", "MacroCallsite::is_enabled == always ∨ current.enabled(self.meta)", floor=2)
@@ -42,6 +43,8 @@ def run(ck):
     ck.rule("C01.R9", "the callsite registry never loses a registered callsite (lock-free push/walk, as C04.R3)", floor=5)
     F = Facts("default")
     ck.configs.append("default")
+    from rules import C19
+    C19.order_rules(ck, F, "C01.R12")
     # R5/R6 re-evaluate "every registered callsite": a callsite dropped from the list keeps its first cached interest
     # forever, so the list's push (link, CAS, retry from the observed head) and walk are premises of this property
     from rules import C04
